@@ -534,7 +534,7 @@ def corrupt_selftest(ck, module, trace_path, mutate):
 
 @check("C09")
 def c09(ck):
-    import os, glob, json
+    import os, glob, json, re
     ck.rule = ("model: AtomImpl.tla (RWMutex + cell + version, swap! as compare-and-set retry) checked exhaustively by TLC on "
                "5 scenarios x 3 threads x 2 atoms (no lost update, failed swap keeps the cell, deadlock freedom, termination "
                "under fairness); the same scenarios on the previous lock-held design are recorded as model counterexamples. "
@@ -579,7 +579,7 @@ def c09(ck):
         idx, _, reason = line.partition(" ")
         idx = int(idx)
         lo = max(0, idx - 25)
-        ck.report("history:" + reason.replace(" ", "-")[:60], reason,
+        ck.report("history:" + re.sub(r"[0-9]+", "N", reason).replace(" ", "-")[:60], reason,
                   {"case": {"kind": "atom-trace", "event_index": idx, "events": rows[lo:idx + 3]}})
     # binding self-test: corrupt one installed value / drop one event
     def mut(rows_):
